@@ -1,5 +1,6 @@
 (* C13 — keys, pastes and mouse events forwarded into the embedded terminal arrive intact.
-   Statements only; proofs live in proofs/TermKeysProofs.v, TermKeysChild.v, TermKeysTie.v, TermHistProofs.v.
+   Statements only; proofs live in proofs/TermKeysProofs.v, TermKeysChild.v, TermKeysTie.v, TermHistProofs.v,
+   TermKeysMarked.v (the end marker of the differential run), TermCutProofs.v (child output cut anywhere).
 
    Vocabulary (model/TermKeys.v, model/TermMouse.v):
      term_update u md e   the BYTES widgets/term's Model.Update writes to the child for the event e when the
@@ -22,7 +23,7 @@
 From Vx Require model.Term.
 From Vx Require Import base.Prelude gen.GenKeys gen.GenTermKeys model.Keys model.ParserTypes model.Parser
   model.TermMouse model.TermKeys model.TermHist proofs.TermKeysProofs proofs.TermKeysChild proofs.TermKeysTie
-  proofs.TermHistProofs.
+  proofs.TermHistProofs proofs.TermKeysMarked proofs.TermCutProofs.
 Local Open Scope Z_scope.
 
 (* ---------- keys ---------- *)
@@ -361,6 +362,102 @@ Theorem C13_hist_model_no_violation : forall (u : uni) (seg : list Z -> list (li
 Proof. exact hist_model_no_violation. Qed.
 Print Assumptions C13_hist_model_no_violation.
 
+(* ---------- the end marker of the differential run ---------- *)
+(* Vocabulary (model/TermKeys.v, proofs/TermKeysMarked.v):
+     host_read_marked u seg pause bs   what the key / paste / mouse / child / hist / cut streams compare against: the
+                               harness injects the bytes and then (after a pause longer than the Escape timer when
+                               [pause] is set, in the same read otherwise) the focus-in report ESC [ I, and takes what
+                               the host posted before it;
+     nonneg bs                 no element is negative (every []byte);
+     ends_esc bs               the last byte is ESC — the harness's rule for [pause];
+     reads_on bs / timer_off bs / marker_sound pause bs   decidable: the read loop is still running after bs / the
+                               Escape timer is not armed after bs / reads_on && (pause || timer_off). *)
+
+(* marked_is_read.  For EVERY byte string, with the pause rule the harness uses: the marked read is host_read, i.e.
+   the theorems about host_read / forward speak about exactly what the streams evaluate.  (From every parser state
+   the marker's ESC ends whatever is pending as the end of input would, and ESC [ I is one focus-in report; the
+   marker's bytes are no UTF-8 continuation bytes, so decoding never runs into it.) *)
+Theorem C13_marked_is_read : forall (u : uni) (seg : list Z -> list (list Z)) (bs : list Z),
+  nonneg bs = true -> host_read_marked u seg (ends_esc bs) bs = Some (host_read u seg bs).
+Proof. exact marked_is_read_bytes. Qed.
+Print Assumptions C13_marked_is_read.
+
+(* a pause is always sound, for every byte string (lone ESC, half a CSI, an open OSC/DCS/APC string, cut UTF-8 ...) *)
+Theorem C13_marked_paused_is_read : forall (u : uni) (seg : list Z -> list (list Z)) (bs : list Z),
+  nonneg bs = true -> host_read_marked u seg true bs = Some (host_read u seg bs).
+Proof. intros u seg bs H. apply marked_paused. apply nonneg_reads_on. exact H. Qed.
+Print Assumptions C13_marked_paused_is_read.
+
+(* the general form: whenever the decidable side condition holds, whatever [pause] is *)
+Theorem C13_marked_sound : forall (u : uni) (seg : list Z -> list (list Z)) (pause : bool) (bs : list Z),
+  marker_sound pause bs = true -> host_read_marked u seg pause bs = Some (host_read u seg bs).
+Proof. exact marked_is_read. Qed.
+Print Assumptions C13_marked_sound.
+
+(* ---------- child output cut at ANY point ---------- *)
+(* Vocabulary (model/TermHist.v):
+     cstep                     CRaw rs = one read of the PTY returned the runes rs (for 7-bit output a rune is a byte:
+                               decode_all_ascii7), CEvt e = the host called Model.Update(e);
+     carried                   what survives between two reads besides the modes: the state of the ONE ansi.Parser of
+                               the emulator (model/Parser.v pst of C02 — state function, collected intermediates and
+                               parameters, pending string) and whether its read loop is running; carried0 = fresh;
+     cfeed c rs                Parser.v's [feed] from the carried state: the new carried state, the sequences delivered;
+     cut_run u md c h          the cut history h on one emulator: bytes written per event, final modes;
+     cut_stream h              the pieces glued together; stream_items c rs = the sequences the stream rs delivers read
+                               in ONE piece from c; cut_events h = the number of events in h. *)
+
+(* hist_no_memory for arbitrary chunkings.  Child output cut ANYWHERE — in the middle of ESC [ ? 2004 h, between
+   the parameters, byte by byte — interleaved with forwarded events: what is written for each event is what its
+   encoder writes under the child's last word on each mode at that moment (a request counts from the piece that
+   completes it), and the final modes are a function of the glued stream alone. *)
+Theorem C13_hist_no_memory_any_cut : forall (u : uni) (h : list cstep) (c : carried) (md0 : tmodes) (rs : list creq)
+    (outs : list (list Z)) (md' : tmodes),
+  cut_run u (asked_from md0 rs) c h = Some (outs, md') ->
+  outs = hist_spec u md0 rs (cut_hist c h) /\
+  md' = asked_from md0 (rs ++ reqs_of (stream_items c (cut_stream h))).
+Proof. intros u h c md0 rs outs md'. exact (cut_run_spec u h c md0 rs outs md'). Qed.
+Print Assumptions C13_hist_no_memory_any_cut.
+
+(* ... pointwise: the event after the pieces h1 is answered under the requests COMPLETED in the glued stream of h1 *)
+Theorem C13_cut_event_output : forall (u : uni) (h1 : list cstep) (e : tevent) (h2 : list cstep) (c : carried)
+    (outs : list (list Z)) (md' : tmodes),
+  cut_run u modes0 c (h1 ++ CEvt e :: h2) = Some (outs, md') ->
+  nth (cut_events h1) outs [] = term_update u (asked (reqs_of (stream_items c (cut_stream h1)))) e.
+Proof. intros u h1 e h2 c outs md'. exact (cut_event_output u h1 e h2 c outs md'). Qed.
+Print Assumptions C13_cut_event_output.
+
+(* where the stream was cut, and what was forwarded in between, is irrelevant *)
+Theorem C13_cut_chunking_irrelevant : forall (u : uni) (c : carried) (h1 h1' : list cstep) (e : tevent)
+    (h2 h2' : list cstep) (outs outs' : list (list Z)) (md' md'' : tmodes),
+  cut_stream h1 = cut_stream h1' ->
+  cut_run u modes0 c (h1 ++ CEvt e :: h2) = Some (outs, md') ->
+  cut_run u modes0 c (h1' ++ CEvt e :: h2') = Some (outs', md'') ->
+  nth (cut_events h1) outs [] = nth (cut_events h1') outs' [].
+Proof. intros u c h1 h1' e h2 h2' outs outs' md' md''. exact (cut_chunking_irrelevant u c h1 h1' e h2 h2' outs outs' md' md''). Qed.
+Print Assumptions C13_cut_chunking_irrelevant.
+
+(* k reads and one read of the same stream leave the same emulator (from any carried parser state, any modes) *)
+Theorem C13_cut_pieces_glue : forall (u : uni) (c : carried) (md : tmodes) (l : list (list Z)),
+  cut_run u md c (map CRaw l) = cut_run u md c [CRaw (concat l)].
+Proof. exact cut_pieces_glue. Qed.
+Print Assumptions C13_cut_pieces_glue.
+
+(* tie to the one-piece model of C13_child_bytes_select_modes: 7-bit output cut at ANY byte offsets ends in the modes
+   the one-piece parse (parse_bytes, C02) of the same bytes asks for *)
+Theorem C13_cut_bytes_any_offsets : forall (u : uni) (l : list (list Z)) (outs : list (list Z)) (md' : tmodes),
+  forallb (fun b => (0 <=? b) && (b <? 128)) (concat l) = true ->
+  cut_run u modes0 carried0 (map CRaw l) = Some (outs, md') ->
+  md' = asked (reqs_of (parse_bytes (concat l))).
+Proof. exact cut_bytes_any_offsets. Qed.
+Print Assumptions C13_cut_bytes_any_offsets.
+
+(* the model's observation of any cut history passes the predicate the cut stream evaluates *)
+Theorem C13_cut_model_no_violation : forall (u : uni) (seg : list Z -> list (list Z)) (c : carried) (h : list cstep),
+  (forall r, seg [r] = [[r]]) -> oracle_ok u ->
+  hist_violation u (model_obs u seg modes0 (cut_hist c h)) = false.
+Proof. exact cut_model_no_violation. Qed.
+Print Assumptions C13_cut_model_no_violation.
+
 (* ---------- non-vacuity ---------- *)
 Example C13_ex_oracles : oracle_ok ascii_uni /\ (forall r, rune_seg [r] = [[r]]).
 Proof. exact (conj ascii_oracle_ok (fun r => eq_refl)). Qed.
@@ -431,3 +528,18 @@ Example C13_ex_history :
                             OOut [QReset [2004]] []; OEv TPasteEnd false paste_end_seq (Some [HPasteEnd])] = true /\
   relevant_eqb TPasteEnd modes0 (apply_ops [OpSet 1; OpSet 1000]) = true.
 Proof. vm_compute. repeat split; try reflexivity. repeat constructor; discriminate. Qed.
+
+(* the marker: the hypotheses are satisfiable; a lone ESC needs the pause (without it ESC ESC [ I is read as Alt+... and
+   the side condition says so); a cut history: ESC [ ? 2 0 | paste | 0 4 h | paste — the first paste is answered under
+   2004 off (the request is not complete), the second under 2004 on; byte by byte gives the same *)
+Example C13_ex_marker_and_cut :
+  nonneg [27; 91; 50; 48; 48; 126] = true /\ ends_esc [27; 91; 50; 48; 48; 126] = false /\
+  ends_esc [27] = true /\ marker_sound false [27] = false /\ marker_sound true [27] = true /\
+  host_read_marked ascii_uni rune_seg true [27] = Some [HKey (mkKey [] KeyEsc 0 0 0 0)] /\
+  marker_sound false [27; 91; 63] = true /\
+  cut_run ascii_uni modes0 carried0 [CRaw [27; 91; 63; 50; 48]; CEvt TPasteStart; CRaw [48; 52; 104]; CEvt TPasteStart]
+    = Some ([[]; paste_start_seq], mkModes false false true false false false false false false) /\
+  cut_run ascii_uni modes0 carried0 (map (fun b => CRaw [b]) [27; 91; 63; 50; 48; 48; 52; 104] ++ [CEvt TPasteStart])
+    = Some ([paste_start_seq], mkModes false false true false false false false false false) /\
+  forallb (fun b => (0 <=? b) && (b <? 128)) (concat [[27; 91; 63; 50; 48]; [48; 52; 104]]) = true.
+Proof. vm_compute. repeat split; reflexivity. Qed.
